@@ -175,7 +175,8 @@ def h_reset(e, n, parents, nops):
                 vals[t] = dv
             else:
                 vals[t] = vals[t] - dv if neg else vals[t] + dv
-        reset_below(vals, t)
+        if op in ('step', 'refstep'):
+            reset_below(vals, t)              # LaTeX: only stepping resets the counters declared within; \setcounter and \addtocounter are plain assignments
         nev += 1
     # print every counter: \arabic{x} separated by commas, plus the value API
     if n == 2:
@@ -369,8 +370,7 @@ def h_doc(e, skel, depth):
             d = e.char('set%d' % k, 48, 57)
             k += 1
             src += ['\\setcounter{section}{', d, '}']
-            cnt['section'] = ord_(d) - 48
-            reset_below('section')
+            cnt['section'] = ord_(d) - 48          # a plain assignment: subsection and theorem counters keep their values
         elif it == 'APP':
             src.append('\\appendix ')
             appendix = True
